@@ -13,6 +13,8 @@ pub mod c08;
 pub mod c09;
 pub mod c10;
 pub mod c11;
+pub mod c12;
+pub mod c13;
 pub mod c15;
 pub mod c16;
 pub mod c18;
@@ -30,6 +32,8 @@ pub fn run(id: &str, tier: Tier) -> i32 {
         "C09" => c09::run(tier),
         "C10" => c10::run(tier),
         "C11" => c11::run(tier),
+        "C12" => c12::run(tier),
+        "C13" => c13::run(tier),
         "C15" => c15::run(tier),
         "C16" => c16::run(tier),
         "C18" => c18::run(tier),
@@ -55,6 +59,8 @@ pub fn replay(id: &str, j: &J) -> i32 {
         "C09" => c09::replay(&case),
         "C10" => c10::replay(&case),
         "C11" => c11::replay(&case),
+        "C12" => c12::replay(&case),
+        "C13" => c13::replay(&case),
         "C15" => c15::replay(&case),
         "C16" => c16::replay(&case),
         "C18" => c18::replay(&case),
